@@ -211,6 +211,40 @@ def rule_r2(rep, idx):
         rep.add('R2a', '%s::%s:effects' % (CLS, nm), not bad, pos(f.node) + ' ' + f.qname,
                 ('; '.join('%s %s at %s' % (e[0], e[1], e[2]) for e in bad)) if bad else
                 'writes only %s%s' % (sorted({e[1] for e in eff}), (' (%s are touched by the trace functions alone)' % private) if private else ''))
+    # R2e: the trace flag itself is consulted only where R2b compares the two settings (the run loop and what it calls)
+    rep.rule('R2e', 'the trace flag is read only by the run loop and the functions it calls (whose two settings R2b compares) and by the '
+             'trace functions: no other member function (the loader, the constructor, a configuration call) does anything that '
+             'depends on -t', floor=3)
+    runf = idx.func(CLS + '::run')
+    reach, todo = set(), [runf]
+    while todo:
+        g = todo.pop()
+        if g is None or g.id in reach or g.body is None:
+            continue
+        reach.add(g.id)
+        for c in cast.calls_in(g.body):
+            kind, name, did, obj = callee_of(c)
+            o = cast.strip(obj) if obj is not None else None
+            h = idx.func_by_id.get(did) if did else None
+            if h is not None and o is not None and o['kind'] == 'CXXThisExpr':
+                todo.append(h if h.body is not None else getattr(h, 'defn', h))
+    for m_ in idx.record(CLS).methods + [c_ for c_ in idx.record(CLS).ctors if c_.body is not None]:
+        if m_.body is None or m_.id in reach or m_.id in closure:
+            continue
+        lhs = set()
+        for x in walk(m_.body):
+            if x['kind'] == 'BinaryOperator' and x.get('opcode') == '=':
+                for y in walk(children(x)[0]):
+                    lhs.add(id(y))
+        reads = [x for x in walk(m_.body) if x['kind'] == 'MemberExpr' and x.get('name') == 'tracing' and cast.is_this_member(x) and id(x) not in lhs]
+        sts_ = children(m_.body)
+        if reads and len(sts_) == 1 and sts_[0]['kind'] == 'ReturnStmt' and children(sts_[0]) and \
+                cast.strip(children(sts_[0])[0]) is reads[0]:
+            reads = []          # a plain accessor: it does nothing itself
+        key = m_.qname + ('(%d)' % len(m_.params) if m_.name == CLS.split('::')[-1] else '')
+        rep.add('R2e', key, not reads, pos(m_.node) + ' ' + m_.qname,
+                ('reads the trace flag at %s: what this function does (and whether it fails) then differs between a run with -t and one without'
+                 % pos(reads[0])) if reads else 'does not read the trace flag', nontrivial=False)
     rep.rule('R2c', 'the trace functions cannot throw: every boost::format chain they evaluate is fed exactly as many operands as its '
              'format string has conversions (a mismatch raises too_few_args/too_many_args at run time and aborts the traced run)', floor=20)
     for nm in TRACE_FUNCS:
